@@ -307,8 +307,10 @@ def _run(case, solver_obj=None, keep=False):
     if case.get("deadline_at") is not None or case.get("virtual_clock"):
         clock = Clock(case.get("deadline_at"))
         T.time = clock
+    faulty_ls = None
     if faults.get("linear"):
-        LS.linear_solver = FaultyLinear(old_ls, faults["linear"])
+        faulty_ls = FaultyLinear(old_ls, faults["linear"], trials)
+        LS.linear_solver = faulty_ls
     logger.setLevel(getattr(logging, obs.get("log_level", "ERROR")))
     handler = None
     if obs.get("log_level") in ("DEBUG", "INFO", "WARNING"):
@@ -366,7 +368,9 @@ def _run(case, solver_obj=None, keep=False):
                        d=[float(v) for v in res.d], iters=int(res.iterations), nacc=int(res.num_accepted_steps),
                        dist_factor=float(res.dist_factor) if res.dist_factor is not None else None,
                        path=(np.asarray(res.path).T.tolist() if res.path is not None else None),
-                       times=(np.asarray(res.model_times).tolist() if res.model_times is not None else None))
+                       times=(np.asarray(res.model_times).tolist() if res.model_times is not None else None),
+                       path_split=([int(np.asarray(res.primal_path).shape[0]), int(np.asarray(res.dual_path).shape[0]),
+                                    int(res.num_vars), int(res.num_cons)] if res.path is not None else None))
         except Exception as e:
             msg = str(e)
             kind = "crash"
@@ -395,6 +399,7 @@ def _run(case, solver_obj=None, keep=False):
     out["evals_by_name"] = {k: sum(1 for e in evals if e[0] == k) for k in ("obj", "obj_grad", "cons", "cons_jac", "lag_hess")}
     out["reads"] = clock.k if clock else None
     out["faults_applied"] = prob.applied if isinstance(prob, FaultyProblem) else None
+    out["linear_fault_trials"] = list(faulty_ls.fault_trials) if faulty_ls is not None else []
     out["scaling"] = None
     if params is not None and not case.get("integration"):
         try:
@@ -475,15 +480,19 @@ class FaultyProblem:
 class FaultyLinear:
     """stands for pygradflow.linear_solver.linear_solver: the k-th factorisation, or the k-th solve, raises"""
 
-    def __init__(self, real, spec):
+    def __init__(self, real, spec, trials=None):
         self.real, self.spec = real, spec
         self.nfact = 0
         self.nsolve = 0
+        self.trials = trials            # the list of recorded trials: its length tells during which trial a failure was injected
+        self.fault_trials = []
 
     def __call__(self, mat, solver_type, symmetric=False):
         from pygradflow.linear_solver import LinearSolverError
         self.nfact += 1
         if self.spec.get("fact") == self.nfact:
+            if self.trials is not None:
+                self.fault_trials.append(len(self.trials))
             raise LinearSolverError("injected factorisation failure")
         inner = self.real(mat, solver_type, symmetric=symmetric)
         outer = self
@@ -496,6 +505,8 @@ class FaultyLinear:
             def solve(self, rhs, trans=False, initial_sol=None):
                 outer.nsolve += 1
                 if outer.spec.get("solve") == outer.nsolve:
+                    if outer.trials is not None:
+                        outer.fault_trials.append(len(outer.trials))
                     raise LinearSolverError("injected solve failure")
                 if outer.spec.get("estimator_solve") is not None:
                     # failures of the condition estimator's own back-solves only (the Newton solves are left alone, so a
@@ -689,6 +700,9 @@ def oracle_C12(case, rec):
                 # exactly: the binary64 sum of the previous model time and the step size used (in every precision mode)
                 if ts[k + 1] != ts[k] + dtk:
                     return "model_times: step %d advanced the model time from %r to %r, the step size used was %r" % (k, ts[k], ts[k + 1], dtk)
+    ps = rec.get("path_split")
+    if ps is not None and (ps[0] != ps[2] or ps[1] != ps[3]):
+        return "path: primal_path has %d rows and dual_path %d, the problem has %d variables and %d constraints" % tuple(ps)
     if rec.get("dist_factor") is not None and not rec["dist_factor"] >= 1.0:
         return "dist_factor: %r is not >= 1" % rec["dist_factor"]
     return None
